@@ -64,6 +64,7 @@ class Run(object):
         self.wrap = wrap
         self.late_attach = late_attach
         self.unattached = []
+        self.defs = {}
         self.seg = seg
         self.rng = rng or random.Random(0)
         self.proto = TorControlProtocol()
@@ -123,6 +124,7 @@ class Run(object):
                 run.cmds.pop()          # refused at submission: never a command
                 run.res.pop()
                 raise
+            run.defs[serial] = d
             if run.late_attach and kind in (None, "plain") and arg is None:
                 # the caller submits first and looks at the outcome later (attaches its callbacks after the reply is in)
                 run.unattached.append((d, serial))
@@ -174,6 +176,8 @@ class Run(object):
             self._fired(serial, dict(k="err", cls=str(f.value.code)[:1], toks=self.toks(f.value.text)))
         elif f.check(TorDisconnectError):
             self._fired(serial, dict(k="disc", cls="", toks=[]))
+        elif f.check(defer.CancelledError):
+            self._fired(serial, dict(k="gone", cls="", toks=[]))      # the caller gave up on it
         else:
             self._fired(serial, dict(k="other", cls="", toks=[]))
             self.errors.append(f.getTraceback())
@@ -305,6 +309,8 @@ class Run(object):
                 else:
                     self.next_kind = e["k"]
                     p.queue_command(text)
+            elif a == "GiveUp":
+                self.defs[e["c"]].cancel()
             elif a == "AddL":
                 p.add_event_listener(e["n"], self.listener(e["l"], e["n"]))
             elif a == "RemL":
